@@ -53,6 +53,10 @@ P_Det ==
     /\ Ck("C14", "ClockRestoredAfterException", C.restored_exc, C.restored_exc)
 
 P_Iso ==
+    \* each strategy is attached to a stream that applies the listener filter it asked for (streams are shared only
+    \* between strategies asking for the same file and the same filter)
+    /\ Ck("C13", "OwnStreamFilter", \A i \in DOMAIN C.filters : C.filters[i][2] = C.filters[i][3],
+          {C.filters[i] : i \in {j \in DOMAIN C.filters : C.filters[j][2] # C.filters[j][3]}})
     /\ Ck("C13", "SameAloneAndTogether", C.solo = C.ab, <<"A alone vs A+B">>)
     /\ Ck("C13", "RegistrationOrderIrrelevant", C.ab = C.ba, <<"A+B vs B+A">>)
     /\ Ck("C13", "OtherStrategyToo", C.solo_b = C.ab_b /\ C.ab_b = C.ba_b, <<"B alone vs together">>)
